@@ -55,7 +55,7 @@ func c18FlightInterp(t *testing.T, c c18Case) kit.Verdict {
 	v := c18NewV()
 	c18CaseClasses(v, c)
 	var overlap atomic.Int32
-	log, res := c18Play(t, c, func(clk *c18Clock, log *c18Log) (func(g, i int, op c18Op), func()) {
+	log, res := c18PlayRounds(t, c, true, func(clk *c18Clock, log *c18Log) (func(g, i int, op c18Op), func()) {
 		sf := syncx.NewSingleFlight()
 		var nexec atomic.Int64
 		inside := make([]atomic.Int32, 3)
@@ -205,7 +205,7 @@ func c18FlightGen(rt *rapid.T) c18Case {
 }
 
 func TestVerif_C18_singleflight(t *testing.T) {
-	kit.Run(t, c18ID, "singleflight", kit.Opts{Quick: 10000, Thorough: 480000}, c18FlightGen,
+	kit.Run(t, c18ID, "singleflight", kit.Opts{Quick: 6000, Thorough: 320000}, c18FlightGen,
 		func(c c18Case) kit.Verdict { return c18FlightInterp(t, c) })
 }
 
@@ -217,7 +217,7 @@ func c18LockedInterp(t *testing.T, c c18Case) kit.Verdict {
 	v := c18NewV()
 	c18CaseClasses(v, c)
 	var overlap atomic.Int32
-	log, res := c18Play(t, c, func(clk *c18Clock, log *c18Log) (func(g, i int, op c18Op), func()) {
+	log, res := c18PlayRounds(t, c, true, func(clk *c18Clock, log *c18Log) (func(g, i int, op c18Op), func()) {
 		lc := syncx.NewLockedCalls()
 		var nexec atomic.Int64
 		inside := make([]atomic.Int32, 3)
@@ -301,7 +301,7 @@ func c18LockedGen(rt *rapid.T) c18Case {
 }
 
 func TestVerif_C18_lockedcalls(t *testing.T) {
-	kit.Run(t, c18ID, "lockedcalls", kit.Opts{Quick: 10000, Thorough: 480000}, c18LockedGen,
+	kit.Run(t, c18ID, "lockedcalls", kit.Opts{Quick: 6000, Thorough: 320000}, c18LockedGen,
 		func(c c18Case) kit.Verdict { return c18LockedInterp(t, c) })
 }
 
@@ -332,7 +332,7 @@ func c18ManagerInterp(t *testing.T, c c18Case) kit.Verdict {
 	var mu sync.Mutex
 	var closers []*c18Closer
 	var closeErr error
-	log, res := c18Play(t, c, func(clk *c18Clock, log *c18Log) (func(g, i int, op c18Op), func()) {
+	log, res := c18PlayRounds(t, c, true, func(clk *c18Clock, log *c18Log) (func(g, i int, op c18Op), func()) {
 		m := syncx.NewResourceManager()
 		var nexec atomic.Int64
 		return func(g, i int, op c18Op) {
@@ -494,6 +494,6 @@ func c18ManagerGen(rt *rapid.T) c18Case {
 }
 
 func TestVerif_C18_resourcemanager(t *testing.T) {
-	kit.Run(t, c18ID, "resourcemanager", kit.Opts{Quick: 8000, Thorough: 320000}, c18ManagerGen,
+	kit.Run(t, c18ID, "resourcemanager", kit.Opts{Quick: 5000, Thorough: 240000}, c18ManagerGen,
 		func(c c18Case) kit.Verdict { return c18ManagerInterp(t, c) })
 }
